@@ -34,7 +34,7 @@ FILES = ["qucumber/observables/utils.py", "qucumber/observables/observable.py", 
 EXTRA_TRUSTED = ["C13: nn_state.sample is an arbitrary function of (call number, call) in the model; the harness replays the recorded run (returned tensor identities, per-draw observable values); torch.var_mean is assumed to be the unbiased two-pass variance up to rounding"]
 REQUIRED_THEOREMS = ["C13_merge", "C13_merge_empty_left", "C13_merge_empty_right", "C13_stream", "C13_count", "C13_schedule",
                      "C13_system", "C13_system_init", "C13_system_dict", "C13_system_nodup", "C13_statistics_one_pass",
-                     "C13_fromSamples", "C13_system_fromSamples", "C13_sample", "C13_system_empty", "C13_gen_update_eq_model"]
+                     "C13_fromSamples", "C13_system_fromSamples", "C13_sample", "C13_system_empty", "C13_gen_update_eq_model", "C13_gen_merge"]
 THEOREMS = {
     "merge": "C13_merge, C13_merge_empty_left, C13_merge_empty_right",
     "stream": "C13_stream, C13_statistics_one_pass",
